@@ -877,6 +877,9 @@ int write_msa_clu(struct msa* msa,char* outfile)
         /* MFREE(linear_seq); */
         return OK;
 ERROR:
+        if(lb){
+                free_line_buffer(lb);
+        }
         return FAIL;
 }
 
@@ -1158,8 +1161,9 @@ int write_msa_msf(struct msa* msa,char* outfile)
         /* MFREE(linear_seq); */
         return OK;
 ERROR:
-        if(linear_seq){
-                MFREE(linear_seq);
+        /* linear_seq points into the msa and is not owned here */
+        if(lb){
+                free_line_buffer(lb);
         }
         if(basename){
                 MFREE(basename);
